@@ -227,7 +227,6 @@ func CheckPPDrive(prop string, c *Case, cov *Cov) []*Violation {
 	}()
 	sched := c.Sched.FitTo(len(b))
 	off := 0
-	nextJunk, wpos := 0, 0
 	for _, st := range sched.Steps {
 		if st.Op != "w" {
 			continue
@@ -254,18 +253,9 @@ func CheckPPDrive(prop string, c *Case, cov *Cov) []*Violation {
 		if prop != "C11" {
 			continue
 		}
-		held := heldAt(s, off)
-		for nextJunk < len(s.Lines) && s.Lines[nextJunk].End <= off {
-			l := s.Lines[nextJunk]
-			if l.Class == gen.Junk && !l.Blank && l.Term && !held[nextJunk] {
-				i := bytes.Index(p.out[wpos:], b[l.Start:l.End])
-				if i < 0 {
-					add("withheld-line", "", fmt.Sprintf("pp sleeps in read(0) after %d bytes; the complete pass-through line %s was delivered but is not readable from its stdout (%d bytes so far)", off, Clip(b[l.Start:l.End], 80), len(p.out)))
-					break
-				}
-				wpos += i + (l.End - l.Start)
-			}
-			nextJunk++
+		if exp, missing := expectedSoFar(s, off, rend); !bytes.HasPrefix(p.out, exp) {
+			li := missing(FirstDiff(p.out, exp))
+			add("withheld-line", "", fmt.Sprintf("pp sleeps in read(0) after %d bytes; the pass-through line / rendering at line %d (%s) was due but is not readable from its stdout (%d bytes so far, %d expected)", off, li, Clip(s.Text(li), 60), len(p.out), len(exp)))
 		}
 		pos := 0
 		for i := range s.Dumps {
